@@ -1,9 +1,131 @@
-//! stub
-use super::Ctx;
-use crate::engine::evidence::{Case, Report, Verdict};
-pub fn run(_ctx: &Ctx, _rep: &mut Report) {
-    crate::engine::monitor::machinery_fail("not implemented");
+//! C17 - starting-hand score equals the Chen formula for every two-card hand.
+//!
+//! Spaces: all 52 x 51 ordered pairs of distinct cards (the whole domain), all 52 cards for the per-card points;
+//! slot-order swap and the three suit shifts for the invariance clause. Runs in both build profiles (the gap helper
+//! subtracts ranks as u8). Oracle: Chen's formula in integer half-points (oracle::misc).
+use super::{confirm, sample_json, Ctx};
+use crate::engine::evidence::{Acc, Case, Report, Verdict};
+use crate::engine::monitor::guard;
+use crate::oracle::cards::{deck, show_words, word_to_card};
+use crate::oracle::misc::{chen, chen_points_x2};
+use ckc_rs::cards::two::Two;
+use ckc_rs::{PokerCard, Shifty};
+use std::time::Instant;
+
+/// Case kinds: "pair" [word a, word b]; "points" [word].
+pub fn judge(case: &Case) -> Verdict {
+    let w = case.w32s();
+    if case.kind == "points" {
+        let c = match w.first().and_then(|x| word_to_card(*x)) {
+            Some(c) => c,
+            None => return Verdict::NotJudged("a real card".into()),
+        };
+        let exp = chen_points_x2(c.rank()) as f32 / 2.0;
+        return match guard(|| w[0].get_chen_points()) {
+            Ok(p) if p == exp => Verdict::Holds,
+            Ok(p) => Verdict::Violated { class: "points:wrong".into(), expected: format!("{} for {}", exp, show_words(&w[..1])), observed: format!("{}", p) },
+            Err(p) => Verdict::Violated { class: "panic:points".into(), expected: format!("{}", exp), observed: format!("panic: {}", p) },
+        };
+    }
+    if case.kind != "pair" || w.len() != 2 {
+        return Verdict::NotJudged("unknown kind".into());
+    }
+    let (a, b) = match (word_to_card(w[0]), word_to_card(w[1])) {
+        (Some(a), Some(b)) if a != b => (a, b),
+        _ => return Verdict::NotJudged("two distinct real cards".into()),
+    };
+    let hi = a.rank().max(b.rank());
+    let lo = a.rank().min(b.rank());
+    let exp = chen(a, b);
+    let shown = show_words(&w);
+    let r = guard(|| {
+        let t = Two::new(w[0], w[1]);
+        let s1 = t.shift_suit();
+        let s2 = s1.shift_suit();
+        let s3 = s2.shift_suit();
+        (t.chen_formula() as i32, t.is_pocket_pair(), t.is_suited(), t.get_gap(), t.is_connector(), t.is_suited_connector(), t.high_card(), Two::new(w[1], w[0]).chen_formula() as i32, [s1.chen_formula() as i32, s2.chen_formula() as i32, s3.chen_formula() as i32])
+    });
+    let (score, pp, suited, gap, conn, sconn, hc, swapped, shifted) = match r {
+        Err(p) => return Verdict::Violated { class: "panic:pair".into(), expected: format!("score {} for {}", exp, shown), observed: format!("panic: {}", p) },
+        Ok(x) => x,
+    };
+    if score != exp {
+        let shape = if hi == lo { "pair".to_string() } else { format!("gap-{}", (hi - lo - 1).min(4)) };
+        return Verdict::Violated { class: format!("score:wrong:{}{}", shape, if a.suit() == b.suit() { ":suited" } else { "" }), expected: format!("Chen score {} for {}", exp, shown), observed: format!("{}", score) };
+    }
+    if pp != (hi == lo) {
+        return Verdict::Violated { class: "is_pocket_pair".into(), expected: format!("{} for {}", hi == lo, shown), observed: format!("{}", pp) };
+    }
+    if suited != (a.suit() == b.suit()) {
+        return Verdict::Violated { class: "is_suited".into(), expected: format!("{} for {}", a.suit() == b.suit(), shown), observed: format!("{}", suited) };
+    }
+    if hi != lo {
+        let g = hi - lo - 1;
+        if gap != g {
+            return Verdict::Violated { class: "get_gap".into(), expected: format!("{} ranks strictly between, for {}", g, shown), observed: format!("{}", gap) };
+        }
+        if conn != (g == 0) {
+            return Verdict::Violated { class: "is_connector".into(), expected: format!("{} for {}", g == 0, shown), observed: format!("{}", conn) };
+        }
+        if sconn != (g == 0 && a.suit() == b.suit()) {
+            return Verdict::Violated { class: "is_suited_connector".into(), expected: format!("{} for {}", g == 0 && a.suit() == b.suit(), shown), observed: format!("{}", sconn) };
+        }
+    }
+    // high card: one of the two cards, of the maximal rank (for a pair either card is accepted)
+    let hc_ok = (hc == w[0] || hc == w[1]) && word_to_card(hc).map(|c| c.rank()) == Some(hi);
+    if !hc_ok {
+        return Verdict::Violated { class: "high_card".into(), expected: format!("the card of {} with the higher rank", shown), observed: show_words(&[hc]) };
+    }
+    if swapped != exp {
+        return Verdict::Violated { class: "score:depends-on-slot-order".into(), expected: format!("{} for both orders of {}", exp, shown), observed: format!("{}", swapped) };
+    }
+    if shifted.iter().any(|s| *s != exp) {
+        return Verdict::Violated { class: "score:depends-on-suit-shift".into(), expected: format!("{} after 1, 2, 3 shifts of {}", exp, shown), observed: format!("{:?}", shifted) };
+    }
+    Verdict::Holds
 }
-pub fn judge(_case: &Case) -> Verdict {
-    Verdict::NotJudged("not implemented".into())
+
+pub fn run(_ctx: &Ctx, rep: &mut Report) {
+    let d = deck();
+    let t0 = Instant::now();
+    let mut acc = Acc::new(64);
+    for a in &d {
+        for b in &d {
+            if a == b {
+                continue;
+            }
+            acc.cases += 1;
+            acc.calls += 12;
+            acc.nontrivial += 1;
+            let e = chen(*a, *b);
+            acc.hist[(e + 2) as usize] += 1;
+            if let Some(v) = confirm(judge, Case::w32("pair", &[a.word(), b.word()])) {
+                acc.violate(v);
+            }
+        }
+    }
+    for s in -1..=20i32 {
+        if acc.hist[(s + 2) as usize] > 0 {
+            rep.hist_add(&format!("ordered_pairs_with_oracle_score_{:+03}", s), acc.hist[(s + 2) as usize]);
+        }
+    }
+    rep.guard("2,652 ordered pairs; scores from -1 (72o) to 20 (AA) occur", acc.cases == 2652 && acc.hist[1] > 0 && acc.hist[22] == 12, format!("{} pairs", acc.cases));
+    rep.add_space("all 52 x 51 ordered pairs of distinct cards", &acc, t0, "score, five helpers, high card, slot swap, three suit shifts");
+    let t0 = Instant::now();
+    let mut acc = Acc::new(1);
+    for c in &d {
+        acc.cases += 1;
+        acc.calls += 1;
+        acc.nontrivial += 1;
+        if let Some(v) = confirm(judge, Case::w32("points", &[c.word()])) {
+            acc.violate(v);
+        }
+    }
+    rep.add_space("per-card points of all 52 cards", &acc, t0, "");
+    for (x, y) in [(0usize, 13usize), (0, 1), (45, 25), (9, 49)] {
+        let t = Two::new(d[x].word(), d[y].word());
+        rep.sample(sample_json("pair", &show_words(&[d[x].word(), d[y].word()]), &format!("crate {} oracle {} gap {} pair {} suited {}", t.chen_formula(), chen(d[x], d[y]), t.get_gap(), t.is_pocket_pair(), t.is_suited())));
+    }
+    rep.rule = "distinct ordered pairs of distinct cards, distinct cards; all are in the property's domain".into();
+    rep.bound = "none: whole domain, in both build profiles".into();
 }
